@@ -280,7 +280,7 @@ theorem exec_gov {nt : Nat} (s : St) (op : Op) (hm : MInv nt s) (h : GMInv s) : 
         · exact ⟨this.env, this.cur, this.snap⟩
         · exact this
       | posted l d1 d2 => exact afterPosted_gov s t l src dst amt (recvOf s.env dst dk) data d1 d2 h (fp l d1 d2 hp)
-  | vote acc pub caller =>
+  | vote acc pub caller cb =>
     simp only [exec]
     split
     · exact h
@@ -289,17 +289,25 @@ theorem exec_gov {nt : Nat} (s : St) (op : Op) (hm : MInv nt s) (h : GMInv s) : 
       | mk l r =>
         obtain ⟨b, g⟩ := r
         rw [hvp] at fv
+        have noCb : ∀ s' : St, GMInv s' → GMInv (if cb = true then { s' with skip := 1 } else s') := by
+          intro s' h'; split
+          · exact ⟨h'.env, h'.cur, h'.snap⟩
+          · exact h'
         cases b with
-        | false => exact h.done l .f fv
+        | false => exact noCb _ (h.done l .f fv)
         | true =>
           simp only []
           cases g with
-          | none => exact h.done l .t fv
+          | none => exact noCb _ (h.done l .t fv)
           | some g =>
             simp only []
             cases hmg : mintGasCb s.env l acc g with
             | none => exact h.throw
-            | some l' => exact h.done l' .t (fv.trans (mintGasCb_frame _ _ _ _ _ hmg))
+            | some l' =>
+              simp only []
+              split
+              · exact ⟨h.env, h.cur.frame (fv.trans (mintGasCb_frame _ _ _ _ _ hmg)), h.snap⟩
+              · exact noCb _ (h.done l' .t (fv.trans (mintGasCb_frame _ _ _ _ _ hmg)))
   | register pub caller =>
     simp only [exec]
     split
@@ -376,12 +384,7 @@ theorem exec_gov {nt : Nat} (s : St) (op : Op) (hm : MInv nt s) (h : GMInv s) : 
 theorem step_gov {nt : Nat} (s : St) (op : Op) (hm : MInv nt s) (h : GMInv s) : GMInv (step s op) := by
   unfold step
   split
-  · split
-    · split
-      · exact ⟨h.env, h.cur, h.snap⟩
-      · exact h
-    · exact ⟨h.env, h.cur, h.snap⟩
-    · exact h
+  · (repeat' split) <;> first | exact h | exact ⟨h.env, h.cur, h.snap⟩
   · split
     · exact h.throw
     · exact exec_gov s op hm h
